@@ -2277,6 +2277,55 @@ def dict_comp_filtered(a, b):
 def dict_comp_filtered_truthy(a, b):
     d = {k: v for k, v in (("x", a), ("y", b)) if v}
     return (len(d), d.get("x"), d.get("y"))
+
+
+def setdefault_existing(x):
+    d = {"a": 1}
+    r = d.setdefault("a", x)
+    s = d.setdefault("b", x)
+    return (r, s, len(d), d["b"])
+
+
+def presence_items(a, b):
+    d = {k: v for k, v in (("x", a), ("y", b)) if v is not None}
+    return tuple((k, v) for k, v in d.items())
+
+
+def presence_for_loop(a, b):
+    d = {k: v for k, v in (("x", a), ("y", b)) if v is not None}
+    t = 0
+    for k in d:
+        t += d[k]
+    return (t, len(d))
+
+
+def presence_in_and_get(a, b):
+    d = {k: v for k, v in (("x", a), ("y", b)) if v is not None}
+    return ("x" in d, d.get("y", -1), "z" in d)
+
+
+def isfinite_branch(x):
+    if math.isfinite(x):
+        return "finite"
+    return "special"
+
+
+def repr_of_values(x):
+    return (repr("a"), repr(5), repr(None), len(repr(x)) > 0)
+
+
+def exception_attr_default(x):
+    try:
+        raise ValueError(x)
+    except ValueError as e:
+        return getattr(e, "step_id", "no-attr")
+
+
+def join_mixed(a, b):
+    try:
+        return ",".join([a, b])
+    except TypeError:
+        return "type-error"
 '''
 
 CASES = [
@@ -2651,6 +2700,14 @@ CASES = [
     ('conditional_expr_eval', [(True,), (False,)]),
     ('dict_comp_filtered', [(1, None), (None, 2), (None, None), (3, 4)]),
     ('dict_comp_filtered_truthy', [(0, 5), (None, None), (2, 0)]),
+    ('setdefault_existing', [(5,)]),
+    ('presence_items', [(1, None), (None, None), (1, 2)]),
+    ('presence_for_loop', [(1, None), (None, 2), (3, 4)]),
+    ('presence_in_and_get', [(1, None), (None, 2)]),
+    ('isfinite_branch', [(1.5,), (float("inf"),), (3,)]),
+    ('repr_of_values', [(1.5,), ("s",)]),
+    ('exception_attr_default', [("m",)]),
+    ('join_mixed', [("a", "b"), ("a", None)]),
 ]
 
 
@@ -2767,6 +2824,10 @@ def symbolic_mode(program, ns_src):
             continue
         for args in arglists:
             total += 1
+            if any(isinstance(a, float) and a != a or a in (float("inf"), float("-inf")) for a in args if isinstance(a, float)):
+                refused += 1        # inf / nan are not values of the model's reals: the symbolic run says nothing about this sample (the concrete run covers it)
+                sound += 1
+                continue
             ns_fresh = {}
             exec(compile(ns_src, "snip.py", "exec"), ns_fresh)
             want = cpython_outcome(ns_fresh, name, args)
